@@ -14,8 +14,9 @@ CASES = [
          new="""            self._set_modes(mode_no, dim)
             if (np.asarray([m % 2 for m in mode_no]) != 0).any():
                 raise ValueError("Fourier: Odd mode_no not supported.")"""),
-    dict(name="grid-off-by-half", file=G, expect="R17.3", old="                -mode_no[d] / 2.0 * self._delta_k[d],", new="                -(mode_no[d] - 1) / 2.0 * self._delta_k[d],"),
-    dict(name="grid-wrong-step", file=G, expect="R17.3", old="                self._delta_k[d],\n            )", new="                self._delta_k[0],\n            )"),
+    dict(name="grid-off-by-half", file=G, expect="R17.3", old="            np.arange(-mode_no[d] / 2.0, mode_no[d] / 2.0) * self._delta_k[d]", new="            np.arange(-(mode_no[d] - 1) / 2.0, mode_no[d] / 2.0) * self._delta_k[d]"),
+    dict(name="grid-wrong-step", file=G, expect="R17.3", old="            np.arange(-mode_no[d] / 2.0, mode_no[d] / 2.0) * self._delta_k[d]", new="            np.arange(-mode_no[d] / 2.0, mode_no[d] / 2.0) * self._delta_k[0]"),
+    dict(name="revert-float-step-arange", file=G, expect="R17.3", old="            np.arange(-mode_no[d] / 2.0, mode_no[d] / 2.0) * self._delta_k[d]", new="            np.arange(-mode_no[d] / 2.0 * self._delta_k[d], mode_no[d] / 2.0 * self._delta_k[d], self._delta_k[d])"),
     dict(name="grid-dim-minus-1", file=G, expect="R17.3", old="            for d in range(dim)\n        ]", new="            for d in range(dim - 1)\n        ]"),
     dict(name="delta-k-anis-dropped", file=G, expect="R17.3", old="            self._delta_k = 2.0 * np.pi / self._period * anis", new="            self._delta_k = 2.0 * np.pi / self._period"),
     dict(name="delta-k-no-2pi", file=G, expect="R17.3", old="            self._delta_k = 2.0 * np.pi / self._period * anis", new="            self._delta_k = 1.0 / self._period * anis"),
@@ -24,6 +25,5 @@ CASES = [
                 phase += modes[d, j] * pos[d, i]""", new="""            for d in range(dim - 1):
                 phase += modes[d, j] * pos[d, i]"""),
     dict(name="twin-grid-rewritten", kind="twin", file=G,
-         old="                -mode_no[d] / 2.0 * self._delta_k[d],\n                mode_no[d] / 2.0 * self._delta_k[d],",
-         new="                -self._delta_k[d] * mode_no[d] / 2.0,\n                self._delta_k[d] * mode_no[d] / 2.0,"),
+         old="            np.arange(-mode_no[d] / 2.0, mode_no[d] / 2.0) * self._delta_k[d]", new="            self._delta_k[d] * np.arange(-mode_no[d] / 2, mode_no[d] / 2)"),
 ]
